@@ -885,12 +885,13 @@ func (c *Ctx) ruleDiscType(rule string) {
 }
 
 // R-DISCPRESENT: the map a one-of hands back carries the discriminator on every accepting path.
-//   Unserialize side (the map comes from the member's Unserialize): the typed discriminator is STORED on every path -
-//     a store only "if the member did not produce one" leaves the member's own value there, which has the member's
-//     type (a named string of a typed enum), not the key type Validate / Serialize assert.
-//   Serialize side (the map comes from the member's Serialize): on every path the discriminator was stored or found
-//     present by a comma-ok lookup - a store conditional on the inlining flag omits it when an inlined member did not
-//     emit its optional discriminator property, and the result cannot be routed back.
+//
+//	Unserialize side (the map comes from the member's Unserialize): the typed discriminator is STORED on every path -
+//	  a store only "if the member did not produce one" leaves the member's own value there, which has the member's
+//	  type (a named string of a typed enum), not the key type Validate / Serialize assert.
+//	Serialize side (the map comes from the member's Serialize): on every path the discriminator was stored or found
+//	  present by a comma-ok lookup - a store conditional on the inlining flag omits it when an inlined member did not
+//	  emit its optional discriminator property, and the result cannot be routed back.
 func (c *Ctx) ruleDiscPresent(rule string) {
 	n := 0
 	for _, fn := range c.M.SortedFuncs(c.scopePkg("schema")) {
